@@ -258,6 +258,8 @@ func (t *Tree) SelectNodes(re string) ([]*Node, error) {
 // Removed tips
 func (t *Tree) RemoveTips(revert bool, names ...string) error {
 	namemap := make(map[string]bool)
+	// The root of a rooted tree is kept even when it is left with two neighbors
+	rooted := t.Rooted()
 
 	for _, name := range names {
 		namemap[name] = true
@@ -270,7 +272,7 @@ func (t *Tree) RemoveTips(revert bool, names ...string) error {
 
 		_, ok := namemap[tip.Name()]
 		if (!revert && ok) || (revert && !ok) {
-			if err := t.removeTip(tip); err != nil {
+			if err := t.removeTip(tip, rooted); err != nil {
 				return err
 			}
 		}
@@ -294,7 +296,7 @@ func (t *Tree) RemoveTips(revert bool, names ...string) error {
 // connect n0 to t1 with a branch having :
 //   - length=length(n0--n2)+length(n2--t1)
 //   - support=max(support(n0--n2),support(n2--t1))
-func (t *Tree) removeTip(tip *Node) error {
+func (t *Tree) removeTip(tip *Node, rooted bool) error {
 	if len(tip.neigh) != 1 {
 		return errors.New("Cannot remove node, it is not a tip")
 	}
@@ -343,7 +345,7 @@ func (t *Tree) removeTip(tip *Node) error {
 	}
 
 	// Case 2: We remove the node
-	if len(internal.neigh) == 2 {
+	if len(internal.neigh) == 2 && !(rooted && internal == t.Root()) {
 		n1, n2 := internal.neigh[0], internal.neigh[1]
 		b1, b2 := internal.br[0], internal.br[1]
 		length1, length2 := b1.Length(), b2.Length()
